@@ -152,10 +152,12 @@ def run(ctx):
             ctx.violation(dict(kind="proof", property="C09", detail="coqchk failed or reports axioms", out=ctx.cov.get("coqchk")), no_input=True)
 
 
-PROVED = ("C09_whole_edit (every edit the handler returns has the range (0,0)..as_position |text| text, i.e. the whole document, and "
-          "a new text different from the document), C09_glue_table / C09_glue_lift (part (B) of the design: every pair of token classes that "
-          "the printers glue without a separator is free of `needs_sep`, by a vm_compute sweep, and for such a pair the lexer splits the "
-          "glued spelling where the formatter glued it).")
+PROVED = ("C09_whole_edit / C09_whole_document_covers (every edit the handler returns has the range (0,0)..as_position |text| text, which "
+          "addresses bytes 0..|text| - the whole document - and a new text different from the document), C09_glue_table / C09_glue_lift "
+          "(part (B) of the design: every pair of token classes that the printers glue without a separator is free of boundary hazards, "
+          "by a vm_compute sweep, and at such a boundary the lexer splits the glued spelling exactly where the formatter glued it), "
+          "C09_int_roundtrip / C09_hex_roundtrip / C09_char_roundtrip (what Display prints for a literal lexes back to the same kind and "
+          "value: 007 -> 7, 0x0a -> 0x0A), C09_ident_glue.")
 VALIDATED = ("the full statement C09_full_statement (non-comment tokens and diagnostics of the formatted text equal the original's for every "
              "syntactically valid program) needs the parser round trip of C04 and is stated, not proved; it is checked on the implementation "
              "by the oracle above on every generated document, and the model is compared with the server on every document.")
